@@ -15,7 +15,6 @@ ENGINES = [
 NOTES = "Family: contract-based deductive verification of the real code. See DESIGN.md. Exit codes: 0 held, 1 VIOLATION, 2 undecided (tool problem / lost anchor; never a violation). Genuine defects repaired in /repo are listed in KNOWN_FINDINGS.txt as fixed:."
 
 NOT_APPLICABLE = {
-    "C09": "core claim (every tree of quotes yields the complete matrix of path products) needs a graph-theoretic progress argument over a recursion built from sum_axis / zip / filter / max_by_key / itertools::combinations and a HashSet that neither Verus nor Kani reaches here; the rejection clauses (empty, count, settlement) are verified under C10's try_new contract and the bounded probe replay/src/probe_fx.rs exercises trees of 2..6 currencies; see DESIGN.md §7 C09",
     "C15": "needs an unbounded proof of the f64 linear solver plus Schoenberg-Whitney/Marsden spline theory; not expressible as contracts Z3 can discharge here; see DESIGN.md §7 C15",
     "C16": "implementation is serde derive expansions + serde_json/bincode; no rateslib function body to put a contract on; see DESIGN.md §7 C16",
 }
@@ -104,6 +103,13 @@ TEXT = {
         "level_text": "Proof: the bodies are extracted from /repo each run. UnionCal::is_weekday / is_holiday / is_settlement are proved equal to: in the working week of every member / a holiday of some member / a business day of every settlement calendar (true when there are none), for arbitrary member lists; lemma_union_bus turns that into the statement's \"business day exactly when a business day in every member\"; lemma_union_order gives independence of list order. The four eq bodies return true exactly when both calendars agree on business day and settlement day for every day number from 1970-01-01 to 2200-12-31 (the zip/all over the two 84371-element date ranges is proved, not run). NamedCal::try_new is proved against named_post: lower-case, split on '|', more than two parts is Err, the first part's comma pieces become the members in order and the second part's the settlement list, any unknown piece is Err; lemmas give name == explicit union date for date and case-insensitivity.",
         "level_note": "Strings are abstract (lower-casing and splitting uninterpreted), get_calendar_by_name is an assumed contract (C07 decides the tables behind it). Trusted: Verus/Z3, the extractor, the chrono and collection shims.",
         "design_ref": "DESIGN.md §7 C06",
+    },
+    "C09": {
+        "engine": "verus-extract+bounded-probe",
+        "technique": "Verus contracts on the extracted FXRates::try_new (rejection clauses), create_initial_edges and create_initial_fx_array; bounded probe of the real triangulation against a path-product oracle (stand-in, labelled bounded)",
+        "level_text": "Other (part proof, part bounded): PROVED for all inputs - an empty quote list, a currency count different from quotes + 1 (under- or over-specified) and inconsistent settlement dates are Err; create_initial_edges marks exactly the diagonal and the quoted pairs (both orientations); create_initial_fx_array puts every quote in its cell exactly as quoted, its reciprocal in the mirrored cell, one on the diagonal and leaves everything else zero (for quotes on pairwise different currency pairs). BOUNDED ONLY (never counted as proved) - the fill-in recursion mut_arrays_remaining_elements / create_fx_array: on the real compiled code, for quote trees on 2..8 (thorough: 2..12) currencies of six shapes, every orientation for n <= 7, rotated quote orders and four base choices, every one of the n*n cross rates equals the product of the quotes along the tree path (inverted where travelled backwards), quoted pairs are returned exactly, self rates are 1, first-order sensitivities to fx_<pair> are +-cross/quote on the path and 0 elsewhere; nine degenerate quote sets (duplicate, reversed duplicate, triangle, two components, cycle plus isolated pair with the right count, settlement mismatches, empty) are rejected.",
+        "level_note": "The deciding recursion is outside Verus' reach (sum_axis / zip / filter / max_by_key / itertools::combinations / HashSet) and outside Kani's (hashing containers); the probe is a bounded stand-in with the stated bound. Trusted: the probe's oracle, rustc.",
+        "design_ref": "DESIGN.md §7 C09",
     },
     "C10": {
         "technique": "Verus contracts on the extracted FXRates::try_new / rate / update / set_ad_order bodies; representation invariant fx_inv (matrix values == values of the matrix built from the stored quotes) required and ensured by every operation",
